@@ -18,6 +18,7 @@ type Duplex struct {
 	Size    int    `json:"size"`     // size of the large inbound record
 	PauseAt int    `json:"pause_at"` // offset into the inbound stream at which the outbound sends happen
 	Sends   int    `json:"sends"`
+	Last    bool   `json:"last,omitempty"` // the large record is the last one: the next Recv reports a clean end
 }
 
 // gatedReader delivers data[:pauseAt], then calls pause (once), then the rest.
@@ -61,8 +62,10 @@ func runDuplex(_ *testing.T, d Duplex) engine.Verdict {
 		return engine.Failf("C11/"+d.Framing+"/send-error", "Send of %d bytes: %v", len(big), err)
 	}
 	tail := []byte("tail")
-	if err := fr(emptyReader{}, &in).Send(tail); err != nil {
-		return engine.Failf("C11/"+d.Framing+"/send-error", "Send: %v", err)
+	if !d.Last {
+		if err := fr(emptyReader{}, &in).Send(tail); err != nil {
+			return engine.Failf("C11/"+d.Framing+"/send-error", "Send: %v", err)
+		}
 	}
 	var out bufWC
 	var sent [][]byte
@@ -88,7 +91,11 @@ func runDuplex(_ *testing.T, d Duplex) engine.Verdict {
 		}
 		return engine.Failf("C11/"+d.Framing+"/record-differs", "large record of %d bytes received while the channel sent %d small ones (at inbound offset %d): got %d bytes, err %v, first difference at byte %d", len(big), d.Sends, d.PauseAt, len(got), err, at)
 	}
-	if got2, err := ch.Recv(); err != nil || !bytes.Equal(got2, tail) {
+	if d.Last {
+		if got2, err := ch.Recv(); err != io.EOF || len(got2) != 0 {
+			return engine.Failf("C11/"+d.Framing+"/no-clean-eof", "the sender closed after a record of %d bytes: the next Recv returned (%s, %v), want (nil, io.EOF)", len(big), engine.Q(clip(got2)), err)
+		}
+	} else if got2, err := ch.Recv(); err != nil || !bytes.Equal(got2, tail) {
 		return engine.Failf("C11/"+d.Framing+"/record-differs", "record after the large one: got %s, %v want %s", engine.Q(clip(got2)), err, engine.Q(tail))
 	}
 	// what went out must decode to exactly the small records
@@ -120,7 +127,7 @@ func enumDuplex(env engine.Env, yield func(Duplex) bool) {
 				if !env.Mine(idx) {
 					continue
 				}
-				if !yield(Duplex{Framing: f, Size: n, PauseAt: pause, Sends: 1 + idx%3}) {
+				if !yield(Duplex{Framing: f, Size: n, PauseAt: pause, Sends: 1 + idx%3, Last: idx%2 == 0}) {
 					return
 				}
 			}
